@@ -250,6 +250,12 @@ def getStr (d : PDict) (k : String) : Except PyErr String :=
   | some _ => .error .typeError
   | Option.none => .error .keyError
 
+/-- the iSCSI branch of `marshall_transport_id` once the string `s` is known -/
+def transportIdIscsi (d : PDict) (s : String) : Except PyErr Bytes := do
+  let r ← encodeFrom d Gen.PersistentReserveInReadFullStatus_transport_id_bits (zeros (4 + pad4Len s.length))
+  let r := setSlice r 2 4 (intToBa (r.length - 4) 2)
+  pure (setSlice r 4 (s.length + 4) (strBytes s))
+
 /-- `PersistentReserveInReadFullStatus.marshall_transport_id` -/
 def transportId (d : PDict) : Except PyErr Bytes := do
   let pid ← getInt d "protocol_id"
@@ -262,10 +268,7 @@ def transportId (d : PDict) : Except PyErr Bytes := do
     else
       let s ← if isid then do pure ((← getStr d "iscsi_name") ++ ",i,0x" ++ (← getStr d "iscsi_initiator_session_id"))
               else getStr d "iscsi_name"
-      let sb := strBytes s
-      let r ← encodeFrom d tbl (zeros (4 + pad4Len s.length))
-      let r := setSlice r 2 4 (intToBa (r.length - 4) 2)
-      pure (setSlice r 4 (s.length + 4) sb)
+      transportIdIscsi d s
   else
     let r ← encodeFrom d tbl (zeros 24)
     if pid = 0 then pure (setSlice r 8 16 ((← getBytes d "n_port_name").take 8))
@@ -275,25 +278,31 @@ def transportId (d : PDict) : Except PyErr Bytes := do
     else if pid = 0xA then pure (setSlice r 4 12 ((← getBytes d "routing_id").take 8))
     else pure r
 
+/-- REGISTER AND MOVE list once the TransportID bytes are known (`tid = []` when none is given) -/
+def prOutRamWith (d : PDict) (tid : Bytes) : Except PyErr Bytes := do
+  let r ← encodeFrom (d.set "transportid_length" (.int tid.length)) Gen.PersistentReserveOut_ram_parameter_list_bits (zeros 24)
+  pure (r ++ tid)
+
+/-- basic list with SPEC_I_PT once the additional parameter data (the TransportIDs) is known -/
+def prOutSpecWith (d : PDict) (add : Bytes) : Except PyErr Bytes := do
+  let r ← encodeFrom d Gen.PersistentReserveOut_basic_parameter_list_bits (zeros 28)
+  pure (setSlice r 24 28 (intToBa add.length 4) ++ add)
+
 /-- `PersistentReserveOut.marshall_dataout(opcode, service_action, data)`;
     `sa`: 0 = any other service action, 1 = REGISTER, 2 = REGISTER AND MOVE -/
 def prOut (sa : Nat) (d : PDict) : Except PyErr Bytes := do
   if sa = 2 then
     if truthy? (d.get? "transport_id") then
       let tid ← transportId (← getDict d "transport_id")
-      let r ← encodeFrom (d.set "transportid_length" (.int tid.length)) Gen.PersistentReserveOut_ram_parameter_list_bits (zeros 24)
-      pure (r ++ tid)
-    else
-      encodeFrom (d.set "transportid_length" (.int 0)) Gen.PersistentReserveOut_ram_parameter_list_bits (zeros 24)
+      prOutRamWith d tid
+    else prOutRamWith d []
   else if sa = 1 && truthy? (d.get? "spec_i_pt") then
-    let r ← encodeFrom d Gen.PersistentReserveOut_basic_parameter_list_bits (zeros 28)
     let ts ← match d.get? "transport_ids" with
       | Option.none => pure []
       | some (.list l) => pure l
       | some _ => .error .typeError
     let tids ← ts.mapM (fun t => do transportId (← asDict t))
-    let add := tids.flatten
-    pure (setSlice r 24 28 (intToBa add.length 4) ++ add)
+    prOutSpecWith d tids.flatten
   else
     encodeFrom d Gen.PersistentReserveOut_basic_parameter_list_bits (zeros 24)
 
@@ -406,6 +415,14 @@ def xSegment (t : XTables) (d : PDict) : Except PyErr Bytes := do
   else if code = 0x02 ∨ code = 0x0D then xEncodeSegment d t.segB2B 28
   else .error .notImplemented
 
+/-- the parameter list once the descriptor bytes are known: header with the three list lengths
+    written into it, then CSCD descriptors, segment descriptors, inline data -/
+def xAssemble (t : XTables) (hdr : PDict) (ts ss inline : Bytes) (tlKey : String) : Except PyErr Bytes := do
+  let hd := ((hdr.set tlKey (.int ts.length)).set "segment_descriptor_list_length" (.int ss.length)).set
+    "inline_data_length" (.int inline.length)
+  let r ← encodeFrom hd t.header (zeros t.headerLen)
+  pure (r ++ ts ++ ss ++ inline)
+
 /-- `marshall_parameter_list`; `hdr` = the header dictionary the constructor assembles (without the
     three list lengths, which are computed here) -/
 def xParameterList (t : XTables) (paramsKey : String) (hdr : PDict) (targets segments : List PV) (inline : Bytes)
@@ -414,9 +431,6 @@ def xParameterList (t : XTables) (paramsKey : String) (hdr : PDict) (targets seg
   let ss ← segments.mapM (fun x => do
     let s ← xSegment t (← asDict x)
     if s.isEmpty then .error .valueError else pure s)
-  let hd := ((hdr.set tlKey (.int ts.flatten.length)).set "segment_descriptor_list_length" (.int ss.flatten.length)).set
-    "inline_data_length" (.int inline.length)
-  let r ← encodeFrom hd t.header (zeros t.headerLen)
-  pure (r ++ ts.flatten ++ ss.flatten ++ inline)
+  xAssemble t hdr ts.flatten ss.flatten inline tlKey
 
 end Enc
